@@ -207,7 +207,11 @@ pub fn gen(rng: &mut Rng, sc: &mut Scope, target: W, depth: u32) -> GExpr {
             sc.hit("logic");
             let lw = if rng.chance(1, 4) { W::Unl } else { W::Bits(1) };
             let rw = if rng.chance(1, 4) { W::Unl } else { W::Bits(1) };
-            GExpr::Bin(*rng.pick(&LOGIC), Box::new(gen(rng, sc, lw, d)), Box::new(gen(rng, sc, rw, d)))
+            // an unsized operand of && / || counts as true when it is not zero, whatever its lowest bit is
+            let even = |rng: &mut Rng| GExpr::Const(*rng.pick(&[2u128, 4, 6, 0x100, 0, 0xfffe][..]), W::Unl, rng.below(2) as u8);
+            let l = if lw == W::Unl && rng.chance(1, 2) { even(rng) } else { gen(rng, sc, lw, d) };
+            let r = if rw == W::Unl && rng.chance(1, 2) { even(rng) } else { gen(rng, sc, rw, d) };
+            GExpr::Bin(*rng.pick(&LOGIC), Box::new(l), Box::new(r))
         }
         (10, W::Bits(1)) => {
             sc.hit("not");
